@@ -173,7 +173,7 @@ theorem freezeRows_length (s : St) : (freezeRows s).length = s.rows.length := by
 theorem resetSlots_same (s : St) : Same s (resetSlots s) := ⟨rfl, freezeRows_length s⟩
 
 theorem saveLoad_same (s : St) : Same s (saveLoad s) := by
-  simp [Same, saveLoad, freezeRows_length]
+  simp [Same, saveLoad, freezeRows_length, List.length_mapIdx]
 
 theorem iterations_ext (fuel : Nat) (r : Recipe) (k : Nat) : ∀ (c : Ctx) (cont : Bool) (s : St) (c' : Ctx) (s' : St),
     iterations fuel r k c cont s = .ok (c', s') → Ext s s' := by
